@@ -92,6 +92,14 @@ var Rules = []Entry{
 	{"sicilian", "rnbqkb1r/pp2pppp/3p1n2/8/3NP3/2N5/PPP2PPP/R1BQKB1R b KQkq - 2 5"},
 	{"endgame-pawns", "8/pp3k2/2p5/3p4/3P1P2/2P3P1/PP3K2/8 w - - 0 30"},
 	{"endgame-rooks", "8/5pk1/6p1/8/3r4/6P1/5PK1/3R4 b - - 3 40"},
+	// mated on the back rank with a castling right in hand: castling out of check is not a way out, and the
+	// square the king would cross is attacked only "through" the king
+	{"mate-with-right-wk", "6k1/8/8/8/8/8/3PPPPP/r3K2R w K - 0 1"},
+	{"mate-with-right-wq", "6k1/8/8/8/8/8/3PPPPP/R3K2r w Q - 0 1"},
+	{"mate-with-right-bk", "R3k2r/3ppppp/8/8/8/8/8/6K1 b k - 0 1"},
+	{"mate-with-right-bq", "r3k2R/3ppppp/8/8/8/8/8/6K1 b q - 0 1"},
+	// in check with both rights, not mate: the king steps aside
+	{"check-with-rights", "4k3/8/8/8/8/8/8/r3K2R w K - 0 1"},
 }
 
 // All is every curated position.
